@@ -27,7 +27,7 @@ Core == { BM("set", "hdr", Val("str", "typ", "x", 0)), BM("set", "hdr", Val("str
           BM("set", "hdr", Val("int", "typ", WOf(7), 1)), BM("set", "hdr", Val("bool", "alg", 1, 1)),
           BM("set", "clm", Val("int", "iat", WOf(5), 1)), BM("set", "clm", Val("int", "exp", WOf(7), 0)),
           BM("set", "clm", Val("str", "sub", "s", 0)), BM("del", "clm", Val("int", "sub", W0, 0)),
-          Iat(0), Iat(1), Off("exp", 3600), OffW("exp", Century), OffW("nbf", WBig(1024, 5)), Off("exp", 0), Off("nbf", 60), Off("nbf", -5),
+          Iat(0), Iat(1), Iat(4), Iat(-1), Off("exp", 3600), OffW("exp", Century), OffW("nbf", WBig(1024, 5)), Off("exp", 0), Off("nbf", 60), Off("nbf", -5),
           BSetKeyOp("HS256", 0), BSetKeyOp("none", 1), BSetKeyOp("none", -1),
           BSetCbOp(Prog1), ClockOp(WAdd(T0, WOf(1000))) }
 Extra == { BM("set", "hdr", Val("str", "kid", "k", 0)), BM("del", "hdr", Val("int", "typ", W0, 0)), BM("del", "hdr", Val("int", NONE, W0, 0)),
